@@ -583,6 +583,16 @@ func (eng *Engine) inferredMods(ex *Exec, fn *ssa.Function) *modSet {
 	if fn == nil || len(fn.Blocks) == 0 {
 		return ms
 	}
+	if ex.inferBusy == nil {
+		ex.inferBusy = map[*ssa.Function]bool{}
+	}
+	if ex.inferBusy[fn] {
+		// a (mutually) recursive call while the function's own effects are being collected: it writes
+		// nothing beyond what the enclosing scan of its body collects (least fixpoint)
+		return ms
+	}
+	ex.inferBusy[fn] = true
+	defer delete(ex.inferBusy, fn)
 	ex.scanFunc(fn, nil, nil, ms, 0, map[*ssa.Function]bool{})
 	return ms
 }
